@@ -155,7 +155,7 @@ fn main() {
     }
     let mut rep = Report::new(P, tier);
     let mut s = Sink::new();
-    let n = tier.pick(9, 10);
+    let n = tier.pick(10, 11);
     run_chain(&chain_i32(n), &mut s);
     run_chain(&chain_f64(n), &mut s);
     run_chain(&chain_str(n), &mut s);
